@@ -114,11 +114,16 @@ impl<'tree, D: Doc> MetaVarEnv<'tree, D> {
     var_matchers: &HashMap<MetaVariableID, M>,
   ) -> bool {
     let mut env = Cow::Borrowed(self);
-    for (var_id, candidate) in &self.single_matched {
-      if let Some(m) = var_matchers.get(var_id) {
-        if m.match_node_with_env(candidate.clone(), &mut env).is_none() {
-          return false;
-        }
+    // constraints can bind variables used by other constraints,
+    // apply them in a fixed order so the outcome does not depend on hash order
+    let mut matchers: Vec<_> = var_matchers.iter().collect();
+    matchers.sort_unstable_by_key(|(var_id, _)| *var_id);
+    for (var_id, m) in matchers {
+      let Some(candidate) = self.single_matched.get(var_id) else {
+        continue;
+      };
+      if m.match_node_with_env(candidate.clone(), &mut env).is_none() {
+        return false;
       }
     }
     if let Cow::Owned(env) = env {
